@@ -17,6 +17,7 @@ generated from /repo's headers.
 * `list1 f as` / `list2 f as bs`— digest over explicit value lists / their cross product
 * `selfcheck f n`               — the harness enumerates a full square against its own 128-bit
                                    oracle and prints `ok n`; the model only echoes the count
+* `selfcheck f alo ahi`         — the same for the rows `alo..ahi` of the 16-bit square (count = rows · 65536)
 Results: integers as decimal, optionals as `some v` / `none`, bools as 1/0, faults by name.
 -/
 namespace Fcppt.C06.Drv
@@ -160,6 +161,10 @@ def handle (toks : List String) : String :=
     | some g, some as => "D " ++ hex64 (fold3 g as)
     | _, _ => "bad-op"
   | ["selfcheck", _, n] => "ok " ++ n
+  | ["selfcheck", _, alo, ahi] =>
+    match alo.toInt?, ahi.toInt? with
+    | some alo, some ahi => if alo ≤ ahi then "ok " ++ toString ((ahi - alo + 1) * 65536) else "bad-op"
+    | _, _ => "bad-op"
   | _ => "bad-op"
 
 def main : IO Unit := Proto.run handle
